@@ -32,7 +32,7 @@ ASSUMPTIONS = [
     "np.random.randint(0,2) is replaced by a fresh symbolic outcome bit",
 ]
 BOUNDS = {
-    "quick": {"gates": "n<=4, every position", "measure/reset": "n<=2 all positions, determinism in {0,1,probabilistic}",
+    "quick": {"gates": "n<=4, every position", "measure/reset": "n<=2 all positions, determinism in {0,1,probabilistic}; budgeted looks at n=3 (three jobs) and n=4 (MeasureZ)",
               "insert/remove/tensor": "n<=2 (n1+n2<=3)"},
     "thorough": {"gates": "n<=8 every position, n=12 and 16 selected positions", "measure/reset": "n<=3 complete; n=4: four (operation, position, determinism) combinations with a 25 min budget each -- MeasureZ(n=4) completes (255 paths) with z3 arith.solver=2, a few dozen XOR-heavy obligations may stay undecided and are reported", "insert/remove/tensor": "n<=3"},
 }
@@ -566,6 +566,13 @@ def plan(tier):
             h.parallel = True
             h.partial_ok = True
             jobs.append((h, {"time_budget": 40, "chunk_paths": 4, "chunk_s": 8.0}))
+        # and a short look at n=4 (a few dozen of the 255 paths; complete in the thorough tier)
+        h = MeasureZ(n=4, q=2, det="probabilistic")
+        h.parallel = True
+        h.partial_ok = True
+        h.arith_solver = 2
+        h.path_timeout_s = 60
+        jobs.append((h, {"time_budget": 45, "chunk_paths": 2, "chunk_s": 10.0, "solver_timeout_ms": 20000}))
     if not q:
         # n = 4 measurement family: most paths are decided in seconds, some symplectic (XOR-heavy) obligations defeat
         # CDCL; budgeted exploration with a short solver time-out, undecided paths count as unexplored
